@@ -53,6 +53,7 @@ func checkC04(r *Run) {
 	genericGuards(r)
 	checkBlame(r, protoScope, 95)
 	checkBytesCoverage(r, "C04.T2", protoScope, 2)
+	checkSentinelErrors(r, "C04.B5")
 }
 func checkC05(r *Run) { genericGuards(r) }
 func checkC06(r *Run) { genericGuards(r) }
@@ -61,7 +62,11 @@ func checkC08(r *Run) {
 	checkBytesCoverage(r, "C08.T1", Scope{Include: []string{"pkg/proofs/"}}, 40)
 }
 func checkC09(r *Run) { genericGuards(r) }
-func checkC10(r *Run) { genericGuards(r) }
+func checkC10(r *Run) {
+	genericGuards(r)
+	checkBlameP(r, "C10", Scope{Include: []string{"pkg/mpc/session/"}}, 2)
+	checkSentinelErrors(r, "C10.B5")
+}
 func checkC13(r *Run) { genericGuards(r) }
 func checkC15(r *Run) { genericGuards(r) }
 func checkC16(r *Run) { genericGuards(r) }
